@@ -346,7 +346,9 @@ inline std::string cmpField(const std::string& f, const Json::Value& exp, const 
   static const std::set<std::string> approxDbl = {"effective_swap_util_pct", "io_cost_cumulative", "io_cost_rate", "memory_growth"};
   if (approxInt.count(f)) {
     long double a = exp.asDouble(), b = obs.isIntegral() ? (long double)obs.asInt64() : (long double)obs.asDouble();
-    long double tol = 2.0L + std::fabs(a) * std::ldexp(1.0L, -50);
+    // each level of the hierarchy rounds its ratio in double and truncates its result to an integer, and the
+    // errors compound down the tree (depth <= 4 here): one unit per level plus a few ulps of the magnitude
+    long double tol = 4.0L + std::fabs(a) * std::ldexp(1.0L, -48);
     if (std::fabs(a - b) <= tol) return "";
     return f + ": expected " + show(exp) + ", observed " + show(obs);
   }
